@@ -74,7 +74,8 @@ ASSUMPTIONS = [
 ]
 
 CONFIGS = ("public", "private-only", "private-after-public", "private-second", "public-after-private",
-           "public-after-custom", "private-after-custom")     # plus the keys of RELOAD below
+           "public-after-custom", "private-after-custom",
+           "private-after-dropped", "public-after-dropped")     # plus the keys of RELOAD below
 
 # Reload configurations "reload:<x>:<view>": table <x> (a private table, or the public table itself) is
 # initialised, customised the way doc/sphinx/guide/customizing.rst does (H=1 rescaling of every el._mass,
@@ -485,6 +486,32 @@ def env(config):
         t = subtable.new("c06-only")
         mass.init(t)
         density.init(t)
+    elif config in ("private-after-dropped", "public-after-dropped"):
+        # Three private tables are created, customised, read completely (every mass, abundance, density, number
+        # density) and DROPPED - no reference is kept and the collector is run - before the table under test is created:
+        # its atoms may live at the addresses of the dead ones and must serve the embedded values all the same.
+        if "private-after-dropped" not in _ENV:
+            import gc
+            for j in range(3):
+                td = subtable.new("c06-dropped-%d" % j)
+                mass.init(td)
+                density.init(td)
+                for k, el in enumerate(td):
+                    if el.number and (el.number + j) % 2 == 0:
+                        el._mass = el._mass * 1.25
+                        if el._density is not None:
+                            el._density = el._density * 0.5
+                for el in td:
+                    _ = (el.mass, el.density, el.number_density, el.interatomic_distance,
+                         [(i.mass, i.abundance, i.density, i.number_density) for i in el])
+                del td, el
+                gc.collect()
+            t4 = subtable.new("c06-after-dropped")
+            mass.init(t4)
+            density.init(t4)
+            _ENV["private-after-dropped"] = t4
+            _ENV["public-after-dropped"] = pub
+        return _ENV[config]
     elif config in ("public-after-custom", "private-after-custom"):
         # A private table is customised the way test/test_private.py and the customizing guide do it
         # (assignment to _mass/_density of its own atoms) and every value of it is read first; the public
@@ -1029,6 +1056,7 @@ def tasks(tier):
            ("sweep-private-after-public", task_sweep,
             dict(configs=["public", "private-after-public", "private-second", "public-after-private"])),
            ("sweep-after-custom", task_sweep, dict(configs=["public-after-custom", "private-after-custom"])),
+           ("sweep-after-dropped-tables", task_sweep, dict(configs=["private-after-dropped", "public-after-dropped"])),
            ("sweep-private-reload", task_sweep,
             dict(configs=["reload:private:fresh", "reload:private:customised", "reload:private:public-while-customised",
                           "reload:private:second-private-while-customised", "reload:private:customised-after-falsy-init",
